@@ -226,6 +226,16 @@ class Verifier:
                 detail.update({'verdict': 'unknown', 'reason': str(m)[:300], 'path': g.trace[-12:], 'info': g.info})
             ob.status, ob.seconds, ob.detail = status, secs, detail
             obls.append(ob)
+        if smt.CROSSCHECK:
+            cr = dict(smt.STATS['cross'])
+            base = getattr(self, '_cross_base', {'n': 0, 's': 0.0, 'unsat': 0, 'sat': 0, 'unknown': 0})
+            delta = {k: (cr.get(k, 0) - base.get(k, 0)) for k in cr}
+            self._cross_base = cr
+            obls.append(Obl('%s/cvc5-agreement' % oid, qualname, kind='structural', backend='cvc5',
+                            status=DISCHARGED if delta.get('sat', 0) == 0 else UNDECIDED,
+                            detail={'goals re-checked by cvc5': delta.get('n', 0), 'cvc5 unsat (agrees)': delta.get('unsat', 0),
+                                    'cvc5 unknown/timeout': delta.get('unknown', 0), 'cvc5 sat (disagrees)': delta.get('sat', 0),
+                                    'seconds': round(delta.get('s', 0.0), 2)}))
         self.stats['paths'] += ex.feasible_paths
         self.stats['goals'] += len(ex.goals)
         obls.append(Obl('%s/feasible-paths>0' % oid, qualname, kind='structural', backend='structural',
